@@ -684,6 +684,17 @@ Proof. intros Hh Hv. cbn. apply Forall_app. split; assumption. Qed.
 Lemma push_res_ok h r : Forall truthful h -> (forall v, r = Ok v -> truthful v) -> Forall truthful (fst (push_res h r)).
 Proof. intros Hh Hr. destruct r as [v|e]; cbn [push_res]; [apply push_ok; auto|exact Hh]. Qed.
 
+Lemma resolve_truthful h o w : Forall truthful h -> resolve h o = Some w -> operand_truthful w.
+Proof.
+  intros Hh H. destruct o as [j|js|l|x]; cbn [resolve] in H.
+  - destruct (nth_error h j) as [w'|] eqn:Ej; [|discriminate]. inversion H. cbn. eapply Forall_nth_error; eauto.
+  - destruct (get_all h js) as [cs|] eqn:Eg; [|discriminate].
+    destruct (table_of cs) as [cs'|e] eqn:Et; [|discriminate]. inversion H. cbn.
+    eapply table_of_truthful; [|exact Et]. eapply get_all_Forall; eauto.
+  - inversion H. exact I.
+  - inversion H. exact I.
+Qed.
+
 (* one operation of the alphabet, applied to a heap of truthful vectors, leaves a heap of truthful
    vectors (results are appended, __setitem__ / _promote mutate in place) *)
 Theorem step_truthful h o : Forall truthful h -> safe_op h o = true -> Forall truthful (fst (step conv h o)).
@@ -706,33 +717,16 @@ Proof.
   - destruct (resolve h o) as [w|]; [|exact Hh]. apply push_res_ok; [exact Hh|].
     intros r Hr. eapply lshift_truthful; eauto.
   - destruct (resolve h o) as [w|] eqn:Er; [|exact Hh].
+    assert (Hw : operand_truthful w) by (eapply resolve_truthful; eauto).
+    assert (Hlen : forall cs', w = OTab cs' -> same_lengths (v :: cs') = true).
+    { intros cs' ->. destruct o as [j|js|l|x].
+      - cbn [resolve] in Er. destruct (nth_error h j); discriminate.
+      - cbn [safe_op] in Hsafe. rewrite Ei, Er in Hsafe. exact Hsafe.
+      - discriminate.
+      - discriminate. }
     destruct (rshift v w) as [[cs|r]|e] eqn:E; [| |exact Hh].
-    + apply pushes_ok; [exact Hh|].
-      change (rresult_truthful (RTable cs)). eapply rshift_truthful; [exact Hv| |exact E|].
-      * destruct o as [j|js|l|x]; cbn [resolve] in Er.
-        -- destruct (nth_error h j) as [w'|] eqn:Ej; [|discriminate]. inversion Er. cbn. eapply Forall_nth_error; eauto.
-        -- destruct (get_all h js) as [cs'|] eqn:Eg; [|discriminate]. inversion Er. cbn. eapply get_all_Forall; eauto.
-        -- inversion Er. exact I.
-        -- inversion Er. exact I.
-      * intros cs' ->. destruct o as [j|js|l|x]; cbn [resolve] in Er.
-        -- destruct (nth_error h j); discriminate.
-        -- destruct (get_all h js) as [cs''|] eqn:Eg; [|discriminate]. inversion Er; subst cs''.
-           cbn [safe_op] in Hsafe. rewrite Ei, Eg in Hsafe. exact Hsafe.
-        -- discriminate.
-        -- discriminate.
-    + apply push_ok; [exact Hh|].
-      change (rresult_truthful (RVec r)). eapply rshift_truthful; [exact Hv| |exact E|].
-      * destruct o as [j|js|l|x]; cbn [resolve] in Er.
-        -- destruct (nth_error h j) as [w'|] eqn:Ej; [|discriminate]. inversion Er. cbn. eapply Forall_nth_error; eauto.
-        -- destruct (get_all h js) as [cs'|] eqn:Eg; [|discriminate]. inversion Er. cbn. eapply get_all_Forall; eauto.
-        -- inversion Er. exact I.
-        -- inversion Er. exact I.
-      * intros cs' ->. destruct o as [j|js|l|x]; cbn [resolve] in Er.
-        -- destruct (nth_error h j); discriminate.
-        -- destruct (get_all h js) as [cs''|] eqn:Eg; [|discriminate]. inversion Er; subst cs''.
-           cbn [safe_op] in Hsafe. rewrite Ei, Eg in Hsafe. exact Hsafe.
-        -- discriminate.
-        -- discriminate.
+    + apply pushes_ok; [exact Hh|]. change (rresult_truthful (RTable cs)). eapply rshift_truthful; eauto.
+    + apply push_ok; [exact Hh|]. change (rresult_truthful (RVec r)). eapply rshift_truthful; eauto.
   - apply push_ok; [exact Hh|]. cbn [safe_op] in Hsafe. rewrite Ei in Hsafe.
     destruct (target_kind t) as [k|] eqn:Et.
     + apply cast_truthful. apply negb_true_iff in Hsafe. exact Hsafe.
